@@ -120,7 +120,8 @@ def drive_all(item, em=None, used=False):
                                    (e.astype(bool) if t % 4 == 2 else e.astype(np.uint64)))
         f = float(em.error_probability(ev, code, p))
         with np.errstate(divide='ignore'):
-            lg = float(em.error_probability(ev, code, p, log_output=True))
+            # the flag as callers produce it: True, a numpy boolean, 1
+            lg = float(em.error_probability(ev, code, p, log_output=(True, np.True_, 1)[t % 3]))
         k = round(f * scale)
         lin.append(int(k) if abs(f * scale - k) <= 1e-9 * max(1.0, k) else -1)
         g = math.exp(lg) if lg > -700 else 0.0
